@@ -22,7 +22,7 @@ func init() {
 	core.Register(&core.Prop{
 		ID:    "C07",
 		Level: "exploration",
-		Rule: "an independent reference sender announces synthetic STAT sequences (all entry types, link groups, empty and multi-chunk files) to the real Receive over prior destinations {empty, mutated copy, unrelated}, with DATA chunkings {1B, 7B, 4KiB, 32KiB-1, 32KiB, 32KiB+1, 1MiB, mixed}, id interleavings {sequential, round-robin, random, reverse}, DATA racing the remaining STATs or not, stream capacity {0,1,8,64}; every REQ is checked online (announced, regular, non-link, once), the REQ set is compared with the identity model, dest bytes are read at the instant FIN arrives, the final dest is compared with the model; a fraction of sessions closes the stream before FIN and demands an error; a fifth of the sessions run the receiver as an ordinary user, a quarter with a Filter that rejects entries, 1 in 20 announces 350-900 files before the first answer (thorough tier: a few sessions with more than 65536 entries). " +
+		Rule: "Plus (1 session of 6) an old destination that holds two names of one inode where the source has two separate files with equal size, time stamp, mode and owner. an independent reference sender announces synthetic STAT sequences (all entry types, link groups, empty and multi-chunk files) to the real Receive over prior destinations {empty, mutated copy, unrelated}, with DATA chunkings {1B, 7B, 4KiB, 32KiB-1, 32KiB, 32KiB+1, 1MiB, mixed}, id interleavings {sequential, round-robin, random, reverse}, DATA racing the remaining STATs or not, stream capacity {0,1,8,64}; every REQ is checked online (announced, regular, non-link, once), the REQ set is compared with the identity model, dest bytes are read at the instant FIN arrives, the final dest is compared with the model; a fraction of sessions closes the stream before FIN and demands an error; a fifth of the sessions run the receiver as an ordinary user, a quarter with a Filter that rejects entries, 1 in 20 announces 350-900 files before the first answer (thorough tier: a few sessions with more than 65536 entries). " +
 			"non-trivial = session with at least one requested multi-chunk file or >=3 interleaved ids; distinct by (tree, prior, chunking, interleaving, race, capacity) fingerprint",
 		Assumptions: []string{"root", "the reference sender is conforming by construction (STATs ascending, ids = STAT positions, one terminator per id, FIN echoed)"},
 		Cases: func(tier string) int {
@@ -119,6 +119,46 @@ func c07Run(c *core.Ctx) *core.Result {
 		mutate(R, prior, R.Range(1, 5), eo)
 	case "unrelated":
 		prior = tree.Gen(R, o)
+	}
+	// the old destination holds two names of one inode where the source has
+	// two separate files that look alike in everything a stat shows (size,
+	// time stamp, mode, owner): the later name needs its own content
+	if lr := core.NewRand(core.Mix(c.Seed, "C07-linked-lookalikes", c.Index)); !unpriv && lr.P(1, 6) {
+		var fs []int
+		for i := range src.Entries {
+			if e := &src.Entries[i]; e.Type == tree.File && e.LinkTo == "" && src.GroupOf(e.Path) == "" && len(e.Data) > 0 && len(e.Xattrs) == 0 {
+				fs = append(fs, i)
+			}
+		}
+		if len(fs) >= 2 {
+			k := lr.Intn(len(fs) - 1)
+			a, b := &src.Entries[fs[k]], &src.Entries[fs[k+1]]
+			if tree.CmpPath(a.Path, b.Path) < 0 && prior.Get(a.Path) != nil && prior.Get(a.Path).Type == tree.File && prior.GroupOf(a.Path) == "" {
+				nd := lr.Bytes(len(a.Data))
+				if string(nd) != string(a.Data) {
+					b.Data, b.Mtime, b.Perm, b.UID, b.GID = nd, a.Mtime, a.Perm, a.UID, a.GID
+					pa := a.Clone()
+					prior.Remove(a.Path)
+					prior.Remove(b.Path)
+					pb := pa.Clone()
+					pb.Path, pb.LinkTo = b.Path, a.Path
+					// the parents of both names have to be there
+					ok := true
+					for _, q := range []string{tree.Parent(a.Path), tree.Parent(b.Path)} {
+						if q != "" && (prior.Get(q) == nil || prior.Get(q).Type != tree.Dir) {
+							ok = false
+						}
+					}
+					if ok {
+						prior.Entries = append(prior.Entries, pa, pb)
+						prior.Sort()
+						fixGroups(prior)
+						pk += "+linked-lookalikes"
+						r.Count("sessions_with_linked_lookalikes_in_the_old_destination", 1)
+					}
+				}
+			}
+		}
 	}
 	if unpriv && src.Get("0ro") != nil && R.P(1, 2) {
 		// the read-only group exists already, out of date: its first name is
